@@ -398,6 +398,9 @@ func (vc *VC) builtin(st *State, b *ssa.Builtin, c *ssa.CallCommon, resT types.T
 
 // applyContract: modular call. requires become obligations, modifies is havocked, ensures are assumed.
 func (vc *VC) applyContract(st *State, con *Contract, name string, args []Val, pnames []string, resT types.Type, pos token.Pos) Val {
+	if cv, ok := vc.W.DB.CallerView[con.FullKey()]; ok {
+		con = cv
+	}
 	vc.usedCons[con.FullKey()] = true
 	vars := map[string]Val{}
 	for i, n := range pnames {
@@ -760,6 +763,9 @@ func (vc *VC) havocModSet(st *State, pre *State, ms *ModSet, allowFreshWrites bo
 				old := vc.name("old", inner, Sel(h, m.Reg))
 				na := vc.fresh("hv", inner)
 				vc.define(fmt.Sprintf("(forall ((i Int)) (! (=> (not (and (<= %s i) (< i %s))) (= (select %s i) (select %s i))) :pattern ((select %s i))))", m.Lo, m.Hi, na, old, na))
+				if n == byteHeap {
+					vc.define(fmt.Sprintf("(forall ((i Int)) (! (and (<= 0 (select %s i)) (<= (select %s i) 255)) :pattern ((select %s i))))", na, na, na))
+				}
 				h = vc.forceName("H_"+n, sort, Sto(h, m.Reg, na))
 			}
 			st.heap[n] = h
